@@ -71,6 +71,7 @@ class Arr:
         self._memo = {}
         self.mask_id = None
         self.true_count = None
+        self.serial = sym.next_serial()
 
     def _s(self):
         """Snapshot of the current contents (derived arrays must not see later in-place stores)."""
@@ -278,6 +279,7 @@ class Arr:
         self._fn = r._fn
         self._memo = {}
         self.mutated = getattr(self, "mutated", 0) + 1
+        sym.note_mutation(self)
         return self
 
     def __iadd__(self, o):
@@ -472,6 +474,7 @@ class Arr:
         return Arr(new_axes, lambda *c: src.at(*m(c)), self.dtype)
 
     def __setitem__(self, key, val):
+        sym.note_mutation(self)
         new_axes, plan = self._plan(key)
         if len(plan) == 1 and plan[0][0] == "fancy" and getattr(plan[0][2], "inverse", None) is not None \
                 and self.ndim == 1 and isinstance(val, Arr) and val.ndim == 1:
